@@ -43,6 +43,10 @@ func c17(c *Ctx) {
 	r.Assume = append(r.Assume, "A3: the application's base TLS configuration does not list library-prefixed protocol names")
 
 	c17BaseFailure(c)
+	// "delivered to a sub-listener, otherwise closed" needs the hand-over itself to
+	// deliver or close: C18's ownership rule for IngressConn / IngressListener, evaluated here too
+	r.Rule("R-C18.5", "ownership in the multiplexing listener: IngressConn and the IngressListener goroutine either send the connection or close it on every path; Accept returns or closes what it received (C18's rule, evaluated here: Start hands every routed connection to IngressConn)")
+	c18Ownership(c)
 	S := c.need("R-C17.1", "net", "(*SplitListener).Start")
 	if S == nil {
 		return
